@@ -99,9 +99,7 @@ def vol_in_union(nd: tg.Node) -> bool:
 
 
 def _fail(ctx: Ctx, nd: tg.Node, oracle: str, detail: str, where: t.Optional[tg.Node] = None) -> None:
-    if vol_in_union(nd) and oracle in ('reparse-equal', 'reparse', 'reserialise-stable'):
-        ctx.fail(oracle, 'union:ValueOrList-member-claimed-by-later-member', detail)
-    elif d9_config(nd):
+    if d9_config(nd):
         ctx.fail(oracle, 'dataclass:tuple-out-with-kw-only-field', detail)
     else:
         ctx.fail(oracle, (where or nd).kind, detail)
